@@ -447,7 +447,8 @@ func checkAndExtractFieldType(paths []string, typ reflect.Type) (extracted refle
 			continue
 		}
 
-		for extracted.Kind() == reflect.Ptr {
+		// at request time exactly one pointer level is dereferenced, see takeOne and checkAndExtractToField
+		if extracted.Kind() == reflect.Ptr {
 			extracted = extracted.Elem()
 		}
 
@@ -465,13 +466,16 @@ func checkAndExtractFieldType(paths []string, typ reflect.Type) (extracted refle
 			continue
 		}
 
-		if i < len(paths)-1 {
-			if extracted.Kind() == reflect.Interface {
+		if extracted.Kind() == reflect.Interface {
+			if i < len(paths)-1 {
 				return extracted, true, nil
 			}
 
-			return nil, false, fmt.Errorf("intermediate type[%v] is not valid", extracted)
+			// the last field is taken from / put into whatever the interface holds at request time
+			continue
 		}
+
+		return nil, false, fmt.Errorf("intermediate type[%v] is not valid", extracted)
 	}
 
 	return extracted, false, nil
